@@ -33,30 +33,39 @@ Qed.
 (* replacing the status of the block found under id by one with the same failure flags *)
 Lemma upd_const_fl_eq l id x c : wf l -> find_blk id l = Some x ->
   fblock c = fblock (bst x) -> fpop c = fpop (bst x) -> fchild c = fchild (bst x) -> (lvP (bst x) -> lvP c) ->
+  deleted c = deleted (bst x) ->
   fl_eq l (upd id (fun _ => c) l).
 Proof.
-  intros W F B P C LV. unfold upd.
+  intros W F B P C LV DD. unfold upd.
   assert (G : forall y, In y l -> bid y = id -> y = x).
   { intros y Hy E. pose proof (wf_In_find l W y Hy) as F2. rewrite E, F in F2. congruence. }
   clear F W. induction l as [|z r IH]; simpl; constructor.
-  - destruct (N.eqb_spec (bid z) id) as [E|E]; simpl; auto.
-    rewrite (G z (or_introl eq_refl) E). repeat split; auto. unfold failed. rewrite B, P, C. auto.
+  - destruct (N.eqb_spec (bid z) id) as [E|E]; simpl.
+    + rewrite (G z (or_introl eq_refl) E). (split; [|split; [|split; [|split; [|split]]]]); auto.
+    + (split; [|split; [|split; [|split; [|split]]]]); auto.
   - apply IH. intros y Hy. apply G. right; auto.
 Qed.
 
 (* ------------------------------------------------------------------ the state machine keeps the failure flags *)
 Lemma raise_validity_fl l x u s b : raise_validity l x u = Done (s, b) ->
-  fblock s = fblock (bst x) /\ fpop s = fpop (bst x) /\ fchild s = fchild (bst x) /\ (lvP (bst x) -> lvP s).
+  fblock s = fblock (bst x) /\ fpop s = fpop (bst x) /\ fchild s = fchild (bst x) /\ (lvP (bst x) -> lvP s)
+  /\ deleted s = deleted (bst x).
 Proof.
-  assert (R : lvP (bst x) -> (level (bst x) <? u)%N = true -> lvP (set_level u (bst x))).
-  { unfold lvP; simpl. intros H L D. apply N.ltb_lt in L. specialize (H D). lia. }
+  assert (R : (level (bst x) <? u)%N = true ->
+              fblock (set_level u (bst x)) = fblock (bst x) /\ fpop (set_level u (bst x)) = fpop (bst x) /\
+              fchild (set_level u (bst x)) = fchild (bst x) /\ (lvP (bst x) -> lvP (set_level u (bst x))) /\
+              deleted (set_level u (bst x)) = deleted (bst x)).
+  { intros L. repeat split; auto; destruct H as [H1 H2]; simpl; auto.
+    intros D. apply N.ltb_lt in L. specialize (H1 D). lia. }
+  assert (Z : fblock (bst x) = fblock (bst x) /\ fpop (bst x) = fpop (bst x) /\ fchild (bst x) = fchild (bst x) /\
+              (lvP (bst x) -> lvP (bst x)) /\ deleted (bst x) = deleted (bst x)) by (repeat split; auto; apply H).
   unfold raise_validity. destruct (fpop (bst x)) eqn:P.
   - intros H; inversion H; subst; auto.
   - destruct (level (bst x) <? u)%N eqn:L.
     + destruct (bparent x) as [p|].
       * destruct (st_of l p) as [ps|]; [|discriminate]. destruct (u <=? level ps)%N; [|discriminate].
-        intros H; inversion H; subst; simpl; auto.
-      * intros H; inversion H; subst; simpl; auto.
+        intros H; inversion H; subst; auto.
+      * intros H; inversion H; subst; auto.
     + intros H; inversion H; subst; auto.
 Qed.
 
@@ -89,7 +98,7 @@ Proof.
   - inversion H; subst. apply fl_eq_refl.
   - repeat bind_inv H.
     match goal with R : raise_validity _ _ _ = Done ?a |- _ => destruct a as [s1 b1];
-      destruct (raise_validity_fl _ _ _ _ _ R) as (B & P & C & LV) end.
+      destruct (raise_validity_fl _ _ _ _ _ R) as (B & P & C & LV & DD) end.
     inversion H; subst. simpl.
     eapply upd_const_fl_eq; eauto.
 Qed.
@@ -230,10 +239,19 @@ Proof.
   destruct (vis c x); simpl; constructor; auto. simpl. auto.
 Qed.
 
-Lemma lvP_set_reason r b s : lvP s -> lvP (set_reason r b s).
-Proof. destruct r; auto. Qed.
+Lemma lvP_set_reason r b s : lvP s -> deleted s = false -> lvP (set_reason r b s).
+Proof. unfold lvP. destruct r; simpl; intros [H1 H2] D; split; auto; rewrite D; discriminate. Qed.
+Lemma lvP_unset_reason r s : lvP s -> lvP (set_reason r false s).
+Proof. unfold lvP. destruct r; simpl; intros [H1 H2]; split; auto. Qed.
+
+Lemma upd_lv_at id f l : (forall y, In y l -> bid y = id -> lvP (f (bst y))) -> lv_ok l -> lv_ok (upd id f l).
+Proof.
+  unfold lv_ok, upd. intros K H. induction H as [|x r Hx Hr IH]; simpl; constructor.
+  - destruct (N.eqb_spec (bid x) id); simpl; auto. apply K; simpl; auto.
+  - apply IH. intros y Hy. apply K. right; auto.
+Qed.
 Lemma lvP_set_fchild b s : lvP s -> lvP (set_fchild b s).
-Proof. auto. Qed.
+Proof. intros [H1 H2]; split; auto. Qed.
 
 Lemma wf_unique l id x : wf l -> find_blk id l = Some x -> forall y, In y l -> bid y = id -> y = x.
 Proof.
@@ -258,14 +276,15 @@ Proof.
     inversion E; subst; clear E.
     assert (Fd : failed (bst x) = true).
     { unfold is_valid in V. destruct (failed (bst x)); auto. simpl in V. exfalso.
-      unfold lv_ok in L. rewrite Forall_forall in L. specialize (L x (find_blk_In _ _ _ Fx) Dx).
+      unfold lv_ok in L. rewrite Forall_forall in L. destruct (L x (find_blk_In _ _ _ Fx)) as [L1 _]. specialize (L1 Dx).
       unfold valid_upto, L_TREE in V. apply negb_true_iff, N.leb_gt in V. lia. }
     apply mk_inv.
     + eapply same_skel_wf; [apply upd_skel|auto].
     + eapply same_skel_ht; [apply upd_skel|auto].
     + apply upd_samefailed_fl_ok; auto using set_reason_fchild.
       intros y Hy Ey. rewrite (wf_unique _ _ _ W Fx y Hy Ey), set_reason_true_failed; auto.
-    + apply upd_lv; auto using lvP_set_reason.
+    + apply upd_lv_at; auto. intros y Hy Ey. rewrite (wf_unique _ _ _ W Fx y Hy Ey).
+      apply lvP_set_reason; auto. unfold lv_ok in L. rewrite Forall_forall in L. apply L. eapply find_blk_In; eauto.
   - assert (S1 : exists s1, (if on_chain s id then set_state_to s p else Done s) = Done s1 /\
                             fl_eq (blocks s) (blocks s1) /\ tkind s1 = tkind s).
     { destruct (on_chain s id).
@@ -285,7 +304,11 @@ Proof.
     + eapply same_skel_ht; [apply gpass_skel|]. eapply same_skel_ht; [apply upd_skel|auto].
     + apply mark_fl_ok; auto. apply pre_ok_upd; auto using set_reason_fchild.
       intros; apply set_reason_true_failed.
-    + apply gpass_lv; auto using lvP_set_fchild. apply upd_lv; auto using lvP_set_reason.
+    + apply gpass_lv; auto using lvP_set_fchild. apply upd_lv_at; auto.
+      intros y Hy Ey. apply lvP_set_reason.
+      * unfold lv_ok in L1. rewrite Forall_forall in L1. auto.
+      * destruct (fl_eq_sym_flags _ _ FE id x Fx) as (x1 & Fx1 & _ & _ & _ & _ & Dx1).
+        rewrite (wf_unique _ _ _ W1 Fx1 y Hy Ey). congruence.
 Qed.
 
 (* ------------------------------------------------------------------ revalidateSubtree *)
@@ -305,7 +328,7 @@ Proof.
   set (l1 := upd id (set_reason r false) (blocks s)).
   assert (Wl1 : wf l1) by (eapply same_skel_wf; [apply upd_skel|auto]).
   assert (Hl1 : ht_ok l1) by (eapply same_skel_ht; [apply upd_skel|auto]).
-  assert (Ll1 : lv_ok l1) by (apply upd_lv; auto using lvP_set_reason).
+  assert (Ll1 : lv_ok l1) by (apply upd_lv; auto using lvP_unset_reason).
   destruct (has_other_failure r (bst x)) eqn:HO.
   - apply mk_inv; auto.
     apply upd_samefailed_fl_ok; auto using set_reason_fchild.
@@ -345,15 +368,25 @@ Proof.
   eapply inv_of_fl_eq_tree; eauto. eapply alt_set_state_fl; eauto. apply I.
 Qed.
 
-Lemma remove_pass_fl_eq t l : fl_eq l (fst (remove_pass t l)).
+Lemma inv_of_fl_le_tree s s' : Inv_flags s -> fl_le (blocks s) (blocks s') -> Inv_flags s'.
+Proof.
+  intros [W H F L] E. pose proof (fl_le_skel _ _ E) as S. constructor.
+  - eapply same_skel_wf; eauto.
+  - eapply same_skel_ht; eauto.
+  - eapply fl_le_ok; eauto.
+  - eapply fl_le_lv; eauto.
+Qed.
+
+(* removeSubtree: deleteTemporarily keeps FAILED_BLOCK / FAILED_CHILD and drops FAILED_POP *)
+Lemma remove_pass_fl_le t l : fl_le l (fst (remove_pass t l)).
 Proof.
   induction l as [|x r IH]; simpl; [constructor|].
   destruct (remove_pass t r) as [o v]. simpl in IH.
   destruct ((bid x =? t)%N || (match bparent x with Some p => memN p v | None => false end && negb (deleted (bst x))));
     simpl; constructor; auto.
-  repeat split; auto.
+  split; [reflexivity|]. split; [|split; [reflexivity|]].
   - unfold failed; simpl. destruct (fblock (bst x)), (fpop (bst x)), (fchild (bst x)); auto.
-  - intros _ D. discriminate.
+  - intros _. split; simpl; [discriminate|reflexivity].
 Qed.
 
 Theorem remove_subtree_inv s id ord s' : Inv_flags s -> remove_subtree s id ord = Done s' -> Inv_flags s'.
@@ -363,20 +396,22 @@ Proof.
   intros E. bind_inv E.
   assert (S1 : fl_eq (blocks s) (blocks a)).
   { destruct (on_chain s id); [eapply set_state_to_fl; eauto; apply I | inversion E0; subst; apply fl_eq_refl]. }
-  pose proof (remove_pass_fl_eq id (blocks a)) as R.
+  pose proof (remove_pass_fl_le id (blocks a)) as R.
   destruct (remove_pass id (blocks a)) as [l2 vs]. simpl in R.
   inversion E; subst; clear E.
   assert (I2 : Inv_flags (mkTree (tkind s) l2 (try_add_tip (tkind s) l2 (filter (fun t => negb (memN t vs)) (tips a)) p)
                                  (tip a) (applied a))).
-  { eapply inv_of_fl_eq_tree; [exact I|]. simpl. eapply fl_eq_trans; eauto. }
+  { eapply inv_of_fl_le_tree; [exact I|]. simpl. eapply fl_le_trans; [apply fl_eq_le; eauto|eauto]. }
   destruct (on_chain s id); auto. eapply inv_same_blocks; [apply update_tips_blocks|]. exact I2.
 Qed.
 
 (* ------------------------------------------------------------------ initial states *)
+Lemma lvP_root : lvP st_root.
+Proof. split; simpl; [intros _; unfold L_APPLIED; lia | discriminate]. Qed.
 Lemma alt_init_inv h : Inv_flags (alt_init h).
-Proof. constructor; simpl; auto. repeat constructor. unfold lvP; simpl. intros _. unfold L_APPLIED. lia. Qed.
+Proof. constructor; simpl; auto. repeat constructor; apply lvP_root. Qed.
 Lemma pow_init_inv h w : Inv_flags (pow_init h w).
-Proof. constructor; simpl; auto. repeat constructor. unfold lvP; simpl. intros _. unfold L_APPLIED. lia. Qed.
+Proof. constructor; simpl; auto. repeat constructor; apply lvP_root. Qed.
 
 (* ------------------------------------------------------------------ consequences of the invariant *)
 (* a failed parent implies FAILED_CHILD on the child *)
